@@ -168,6 +168,9 @@ func c07Run(args [][]string) []string {
 		}
 		op = 1 // op 9: the row through every entry point, as op 1, in this build
 	}
+	if op == 11 { // a history of boards (c07life.go)
+		return c07RunLife(w, args[1:])
+	}
 	if op != 1 && op != 3 && op != 4 && op != 5 && op != 6 && op != 7 {
 		return []string{"9"}
 	}
